@@ -478,6 +478,145 @@ for _valid in (True, False):
     TASKS.append(FunctionTask(_c, module_env=_P_ENV, registry={"Axes.plot": FuncV(_m_plot_sel, "plot")}, label=f"{_QP}_plot_peak_individual_hvsr_curve[valid={_valid}]",
                               clauses=["peak markers are the object's accepted / rejected peaks"]))
 
+# ---------------------------------------------------------------------------------------------------------------------
+# the azimuthal contour plot: _azimuthal_mesh_from_hvsr builds the three grids - frequency along the columns, azimuth along the rows with a closing row at 180
+# degrees, and the mean curve of every azimuth with the curve of the first azimuth repeated in the closing row (0 and 180 degrees are the same direction);
+# plot_azimuthal_contour_2d hands exactly those grids to contourf in that order and marks, per azimuth, the peak frequency of that azimuth's mean curve at that
+# azimuth.  Three azimuths (a concrete list), the accessors opaque: MCBA(distribution) the table of per-azimuth mean curves, PKBA(distribution) their peak frequencies.
+from pyvc.core import A2 as _A2c
+AZP = [z3.Real(f"azimuth_{i}") for i in range(3)]
+MCBA = z3.Function("mean_curve_by_azimuth", I, _A2c(R))
+PKBA_F = z3.Function("mean_curve_peak_frequency_by_azimuth", I, ARp)
+PKBA_A = z3.Function("mean_curve_peak_amplitude_by_azimuth", I, ARp)
+
+
+def _az_obj(ex, st):
+    fields = {"frequency": ex.alloc_arr(st, (MP,), FRQP, "real", "param:hvsr.frequency", tag="frequency"),
+              "azimuths": ex.alloc_list(st, list(AZP), owner="param:hvsr.azimuths")}
+    return sym_obj(ex, st, "HvsrAzimuthal", fields, owner="param:hvsr")
+
+
+def _m_mcba(ex, st, args, kw, node):
+    d = _dc(kw.get("distribution", args[1] if len(args) > 1 else StrV("lognormal")))
+    return ex.alloc_arr(st, (z3.IntVal(3), MP), MCBA(d), "real", "fresh", tag="mean_curve_by_azimuth")
+
+
+def _m_pkba(ex, st, args, kw, node):
+    d = _dc(kw.get("distribution", args[1] if len(args) > 1 else StrV("lognormal")))
+    return Tup((ex.alloc_arr(st, (z3.IntVal(3),), PKBA_F(d), "real", "fresh", tag="peak_f"), ex.alloc_arr(st, (z3.IntVal(3),), PKBA_A(d), "real", "fresh", tag="peak_a")))
+
+
+def _m_meshgrid(ex, st, args, kw, node):
+    x, y = args
+    dx = ex.arr(st, x)
+    ys = [npm.real(v) for v in st.heap[y.sid].items] if hasattr(y, "sid") and y.sid in st.heap and hasattr(st.heap[y.sid], "items") else None
+    if ys is None or dx.rank != 1:
+        raise Undecided("np.meshgrid of something other than (1-D array, concrete list)")
+    r, c = z3.Ints("r!g c!g")
+    row_val = ys[-1]
+    for j in range(len(ys) - 2, -1, -1):
+        row_val = z3.If(r == j, ys[j], row_val)
+    from pyvc.core import L2 as _L2
+    shape = (z3.IntVal(len(ys)), dx.shape[0])
+    return Tup((ex.alloc_arr(st, shape, _L2(r, c, ex.sel1(dx, c)), "real", "fresh", tag="mesh_x"), ex.alloc_arr(st, shape, _L2(r, c, row_val), "real", "fresh", tag="mesh_y")))
+
+
+def _m_vstack(ex, st, args, kw, node):
+    parts = args[0]
+    if not isinstance(parts, (Tup, tuple)) or len(parts) != 2:
+        raise Undecided("np.vstack of something other than (table, row)")
+    a, b_ = ex.arr(st, parts[0]), ex.arr(st, parts[1])
+    if a.rank != 2 or b_.rank != 1:
+        raise Undecided("np.vstack of something other than (table, row)")
+    ex.safe(st, "vstack-width", a.shape[1] == b_.shape[0], node)
+    r, c = z3.Ints("r!v c!v")
+    from pyvc.core import L2 as _L2
+    return ex.alloc_arr(st, (a.shape[0] + 1, a.shape[1]), _L2(r, c, z3.If(r < a.shape[0], ex.sel2(a, r, c), ex.sel1(b_, c))), "real", "fresh", tag="vstack")
+
+
+def _mesh_inputs(ex, st):
+    st.env["hvsr"] = _az_obj(ex, st)
+    st.env["distribution_mc"] = DMC_
+    st.env["MP"] = MP
+    return [MP >= 1]
+
+
+_AZREG = {"HvsrAzimuthal.mean_curve_by_azimuth": FuncV(_m_mcba, "mean_curve_by_azimuth"), "HvsrAzimuthal.mean_curve_peak_by_azimuth": FuncV(_m_pkba, "mean_curve_peak_by_azimuth")}
+_AZNP = ModV("np", dict(npm.NP.attrs, meshgrid=FuncV(_m_meshgrid, "np.meshgrid"), vstack=FuncV(_m_vstack, "np.vstack")))
+_AZG = {"MCBA": lambda d, r, c: z3.Select(z3.Select(MCBA(d), r), c), "AZ": lambda r: z3.If(r == 0, AZP[0], z3.If(r == 1, AZP[1], z3.If(r == 2, AZP[2], z3.RealVal(180)))), "MP": MP,
+        "DMC": DMC_}
+MESH = Contract(qual=_QP + "_azimuthal_mesh_from_hvsr", params=["hvsr", "distribution_mc"], ghost=_AZG, make_inputs=_mesh_inputs,
+                ensures=["forall(r, 0, 4, forall(c, 0, MP, result[0][r, c] == hvsr.frequency[c]))", "forall(r, 0, 4, forall(c, 0, MP, result[1][r, c] == AZ(r)))",
+                         "forall(r, 0, 3, forall(c, 0, MP, result[2][r, c] == MCBA(DMC, r, c)))", "forall(c, 0, MP, result[2][3, c] == MCBA(DMC, 0, c))",
+                         "result[0].shape[0] == 4 and result[1].shape[0] == 4 and result[2].shape[0] == 4 and result[2].shape[1] == MP"],
+                modifies=[], notes="frequency along the columns; the object's azimuths down the rows and a closing row at 180 degrees; row r holds the mean curve of azimuth r for the "
+                                   "distribution asked for, the closing row that of the first azimuth")
+TASKS.append(FunctionTask(MESH, module_env=dict(_P_ENV, np=_AZNP), registry=_AZREG, label=_QP + "_azimuthal_mesh_from_hvsr[three azimuths]",
+                          clauses=["the contour grids are the object's frequencies, azimuths and per-azimuth mean curves, closed at 180 degrees by the first azimuth"]))
+
+# plot_azimuthal_contour_2d: the mesh helper opaque (its contract: above); contourf receives its three grids in its order; one marker line: the per-azimuth peak
+# frequencies of the mean curves (for the same distribution) against the object's azimuths; the frequency axis spans the object's first to last frequency.
+def _m_mesh_opaque(ex, st, args, kw, node):
+    if len(args) != 1 or args[0] is not st.env["hvsr"] or set(kw) != {"distribution_mc"}:
+        raise Undecided("_azimuthal_mesh_from_hvsr is called in another way than (hvsr, distribution_mc=...)")
+    d = _dc(kw["distribution_mc"])
+    return Tup(ex.alloc_arr(st, (z3.IntVal(4), MP), z3.Const(f"mesh_{w}", _A2c(R)) if w != "amp" else MESHAMP(d), "real", "fresh", tag=f"mesh_{w}") for w in ("frq", "azi", "amp"))
+
+
+MESHAMP = z3.Function("mesh_amplitude", I, _A2c(R))
+
+
+def _m_ax_record(name):
+    return FuncV(lambda ex, st, a, k, n_, _m=name: (st.env.__setitem__("__drawn", Tup(tuple(st.env["__drawn"]) + ((_m, Tup(a[1:]), dict(k)),))), OpaqueV(_m + "()"))[1], name)
+
+
+def _contour_ok(ex, st, a, k, n_):
+    calls = [c for c in st.env["__drawn"] if c[0] in ("contourf", "plot", "fill", "contour", "scatter")]
+    if [c[0] for c in calls] != ["contourf", "plot"]:
+        return z3.BoolVal(False)
+    cf, pl = calls
+    if len(cf[1]) != 3 or len(pl[1]) != 2 or not all(isinstance(x, ARef) for x in cf[1]) or not isinstance(pl[1][0], ARef):
+        return z3.BoolVal(False)
+    g = [ex.arr(st, x) for x in cf[1]]
+    px = ex.arr(st, pl[1][0])
+    py = pl[1][1]
+    same_az = hasattr(py, "sid") and py.sid == st.heap[st.env["hvsr"].oid].fields["azimuths"].sid
+    return z3.And(g[0].data == z3.Const("mesh_frq", _A2c(R)), g[1].data == z3.Const("mesh_azi", _A2c(R)), g[2].data == MESHAMP(DMC_), px.data == PKBA_F(DMC_), z3.BoolVal(bool(same_az)))
+
+
+def _xlim_ok(ex, st, a, k, n_):
+    calls = [c for c in st.env["__drawn"] if c[0] == "set_xlim"]
+    if len(calls) != 1 or len(calls[0][1]) != 2:
+        return z3.BoolVal(False)
+    lo, hi = calls[0][1]
+    return z3.And(lit(lo) == z3.Select(FRQP, 0), lit(hi) == z3.Select(FRQP, MP - 1))
+
+
+def _contour_inputs(ex, st):
+    st.env["hvsr"] = _az_obj(ex, st)
+    st.env["ax"] = sym_obj(ex, st, "Axes", {}, owner="param:ax")
+    st.env.update(distribution_mc=DMC_, plot_mean_curve_peak_by_azimuth=z3.BoolVal(True), fig=NONE, subplots_kwargs=NONE, contourf_kwargs=NONE)
+    st.env["__drawn"] = Tup(())
+    st.env["MP"] = MP
+    return [MP >= 1]
+
+
+_CONT_REG = dict(_AZREG)
+for _m in ("contourf", "plot", "set_xscale", "set_xlim", "set_xlabel", "set_ylabel", "set_yticks", "set_ylim", "legend"):
+    _CONT_REG[f"Axes.{_m}"] = _m_ax_record(_m)
+_CONT_ENV = dict(_P_ENV, np=ModV("np", dict(npm.NP.attrs, max=FuncV(lambda ex, st, a, k, n_: ex.fresh("grid_max", R), "np.max"), arange=FuncV(lambda ex, st, a, k, n_: OpaqueV("ticks"), "np.arange"))),
+                 _azimuthal_mesh_from_hvsr=FuncV(_m_mesh_opaque, "_azimuthal_mesh_from_hvsr"), cm=OpaqueV("cm"), plt=OpaqueV("plt"),
+                 make_axes_locatable=FuncV(lambda ex, st, a, k, n_: OpaqueV("divider"), "make_axes_locatable"))
+_CONT_ENV["DEFAULT_KWARGS"] = DictV(dict(_DEFAULTS.items, peak_mean_hvsr_curve_azimuthal_2d=_kw({"label": "peak_mean_hvsr_curve_azimuthal_2d"})), owner="module")
+CONTOUR2D = Contract(qual=_QP + "plot_azimuthal_contour_2d", params=["hvsr", "distribution_mc", "plot_mean_curve_peak_by_azimuth", "fig", "ax", "subplots_kwargs", "contourf_kwargs"],
+                     ghost={"contour_ok": FuncV(_contour_ok, "contour_ok"), "xlim_ok": FuncV(_xlim_ok, "xlim_ok")}, make_inputs=_contour_inputs,
+                     ensures=["contour_ok()", "xlim_ok()", "result is None"], modifies=["param:ax"],
+                     notes="one filled contour of (frequency grid, azimuth grid, amplitude grid for distribution_mc), then one marker line: per-azimuth mean-curve peak frequencies for "
+                           "the same distribution against the object's azimuth list; frequency axis from the first to the last frequency; the object is not written")
+CONTOUR2D.ghost_state = ("__drawn",)
+TASKS.append(FunctionTask(CONTOUR2D, module_env=_CONT_ENV, registry=_CONT_REG, label=_QP + "plot_azimuthal_contour_2d[given axes, peaks on]",
+                          clauses=["the azimuthal contour shows the object's per-azimuth mean curves and their peaks for the distribution asked for"]))
+
 META = dict(
     level="other",
     explanation="frame obligations: the 14 plotting / summary functions write nothing reachable from the HVSR object, the recordings or their keyword-argument "
